@@ -368,14 +368,54 @@ pub async fn connect(addr: std::net::SocketAddr) -> std::io::Result<TcpStream> {
 }
 
 /// One-shot request on a fresh connection.
+// ---------------------------------------------------------------------------
+// A server that has died or wedged is a finding, not a reason to spend ten or twenty seconds of timeout
+// on each of the thousands of requests still to come: after `limit` unanswered requests in a row the
+// driver writes what it has recorded and stops (the trace then ends in unanswered requests, which the
+// trace specification does not accept).
+// ---------------------------------------------------------------------------
+static UNANSWERED_IN_A_ROW: std::sync::atomic::AtomicU32 = std::sync::atomic::AtomicU32::new(0);
+static TRACE_OUT: std::sync::OnceLock<String> = std::sync::OnceLock::new();
+
+/// Where the driver's trace goes if it has to stop early.
+pub fn stop_early_into(path: &str) {
+    let _ = TRACE_OUT.set(path.to_string());
+}
+
+/// Record whether a request was answered at all; stops the process after 25 unanswered in a row.
+pub fn note_answered(answered: bool) {
+    use std::sync::atomic::Ordering;
+    if answered {
+        UNANSWERED_IN_A_ROW.store(0, Ordering::SeqCst);
+        return;
+    }
+    if UNANSWERED_IN_A_ROW.fetch_add(1, Ordering::SeqCst) + 1 == 25 {
+        if let Some(out) = TRACE_OUT.get() {
+            dropshot::verif::emit("campaign_stopped", serde_json::json!({"why": "25 requests in a row went unanswered"}));
+            let lines = dropshot::verif::take_memory();
+            let _ = std::fs::write(out, lines.join("\n") + "\n");
+            println!("{}", serde_json::json!({"events": lines.len(), "stopped": true}));
+            std::process::exit(0);
+        }
+    }
+}
+
 pub async fn oneshot(
     addr: std::net::SocketAddr,
     req: &[u8],
     head_only: bool,
     timeout: Duration,
 ) -> Result<Resp, String> {
-    let mut s = connect(addr).await.map_err(|e| format!("connect: {}", e.kind()))?;
+    let mut s = match connect(addr).await {
+        Ok(s) => s,
+        Err(e) => {
+            note_answered(false);
+            return Err(format!("connect: {}", e.kind()));
+        }
+    };
     s.write_all(req).await.map_err(|e| format!("write: {}", e.kind()))?;
     let mut rd = Reader::new();
-    Ok(rd.read_response(&mut s, head_only, timeout).await)
+    let resp = rd.read_response(&mut s, head_only, timeout).await;
+    note_answered(resp.status != 0);
+    Ok(resp)
 }
